@@ -42,6 +42,8 @@ Example C03_sum_operand_omitted_refuted :
   let c := {| c_prefix := "t"; c_methods := [{| m_src := "plusOperator"; m_dst := "plusOperator"; m_operator := true; m_awc := false |}];
               c_lit_callers := []; c_verbosity := VInformation; c_literals := true; c_chain := false; c_comments := false; c_prefix_stmts := [] |} in
   let sum := mk_bin (1, 10)%N "+" (mk KStr (1, 4)%N [nS "a"; nS "'a'"]) (mk KStr (7, 10)%N [nS "b"; nS "'b'"]) in
-  exists out p', binary_transform c (mk_bin (1, 14)%N "+" sum (mk_ident (13, 14)%N "c")) p_init = (Some out, p') /\
-                 In "sum-operand-omitted"%string (shape_issues "__datadog_t_" out).
-Proof. vm_compute. eexists _, _. split; [reflexivity | left; reflexivity]. Qed.
+  match binary_transform c (mk_bin (1, 14)%N "+" sum (mk_ident (13, 14)%N "c")) p_init with
+  | (Some out, _) => existsb (String.eqb "sum-operand-omitted") (shape_issues "__datadog_t_" out)
+  | _ => false
+  end = true.
+Proof. vm_compute. reflexivity. Qed.
